@@ -488,6 +488,92 @@ func patternizeWhen(doc interface{}, vn *int) interface{} {
 	return m
 }
 
+// storedVarStrings: variable-looking strings are legal data.  Facts holding them STAY stored
+// while queries, searches and events with conditions that use the same variable names run:
+// a variable gets bound to a string that is its own name, or to the name of another variable
+// that is bound back to it.  Every request must return (result or error).
+func storedVarStrings(r *rep.Report, e rep.Env, via string) {
+	P := func(m map[string]interface{}) map[string]interface{} { return map[string]interface{}{"pattern": m} }
+	M := func(kv ...interface{}) map[string]interface{} {
+		m := map[string]interface{}{}
+		for i := 0; i+1 < len(kv); i += 2 {
+			m[kv[i].(string)] = kv[i+1]
+		}
+		return m
+	}
+	facts := []map[string]interface{}{
+		M("a", "?x"), M("b", "?x", "c", 1.0), M("p", "?y"), M("q", "?x"), M("r", "?y", "s", "?x"),
+		M("a", "?"), M("b", "??x"), M("a", []interface{}{"?x", "?y"}), M("k", map[string]interface{}{"a": "?x"}),
+	}
+	queries := []interface{}{
+		map[string]interface{}{"and": []interface{}{P(M("a", "?x")), P(M("b", "?x"))}},
+		map[string]interface{}{"and": []interface{}{P(M("p", "?x")), P(M("q", "?y")), P(M("r", "?x"))}},
+		map[string]interface{}{"and": []interface{}{P(M("p", "?x")), P(M("q", "?y")), P(M("r", "?y", "s", "?x"))}},
+		map[string]interface{}{"and": []interface{}{P(M("a", "?x")), map[string]interface{}{"not": P(M("b", "?x"))}}},
+		map[string]interface{}{"or": []interface{}{P(M("a", "?x")), P(M("q", "?x"))}},
+		map[string]interface{}{"and": []interface{}{P(M("a", "?x")), map[string]interface{}{"code": "x == '?x'"}}},
+		map[string]interface{}{"and": []interface{}{P(M("a", "?v")), P(M("k", M("a", "?v")))}},
+		map[string]interface{}{"and": []interface{}{P(M("a", []interface{}{"?x"})), P(M("b", "?x"))}},
+	}
+	for half := 0; half < 2; half++ {
+		kind := drv.Kinds[half]
+		var t target
+		switch via {
+		case "loc":
+			t = newLocTarget(kind)
+		case "sys":
+			t = newSysTarget(kind == "linear")
+		default:
+			t = newHTTPTarget(kind == "linear")
+		}
+		var calls []call
+		for i, f := range facts {
+			calls = append(calls, call{Via: via, State: kind, Op: "addFact", Id: fmt.Sprintf("vs%d", i), Doc: f})
+		}
+		for qi, q := range queries {
+			calls = append(calls, call{Via: via, State: kind, Op: "query", Doc: q})
+			// the same query as the condition of a rule hit by an ordinary event
+			calls = append(calls, call{Via: via, State: kind, Op: "addRule", Id: fmt.Sprintf("vr%d", qi), Doc: map[string]interface{}{
+				"when": P(M("go", fmt.Sprintf("vr%d", qi))), "condition": q, "action": map[string]interface{}{"code": "1"}}})
+			calls = append(calls, call{Via: via, State: kind, Op: "event", Doc: M("go", fmt.Sprintf("vr%d", qi))})
+		}
+		for _, p := range []map[string]interface{}{M("a", "?x"), M("b", "?x", "c", "?c"), M("r", "?y", "s", "?x"), M("a", []interface{}{"?x"})} {
+			calls = append(calls, call{Via: via, State: kind, Op: "searchFacts", Doc: p})
+		}
+		for _, c := range calls {
+			r.Journal(c)
+			var derr error
+			returned, pan := drv.Guard(callLimit, func() { _, derr = t.do(c) })
+			r.Case(true, "stored-var-strings"+via+kind+ref.Canon(c))
+			r.Count("requests_over_stored_variable_looking_data", 1)
+			wit := rep.J{"call": c, "stored_facts": facts, "error": drv.ErrStr(derr)}
+			if !returned {
+				r.Violate(hangKey(c), "the call did not return within 25 s (hang)", wit)
+				return
+			}
+			if pan != "" {
+				wit["panic"] = pan
+				r.Violate(panicKey(pan, c), "a panic escaped a public operation: "+firstLine(pan), wit)
+			}
+			if na, ok := derr.(*noAnswer); ok {
+				wit["error"] = na.Error()
+				r.Violate(noAnswerKey(c), "the HTTP service gave neither a result nor an error response (connection dropped)", wit)
+			}
+		}
+		var cerr error
+		clean := false
+		if ret, pan := drv.Guard(callLimit, func() { clean = t.cleanup() }); !ret || pan != "" {
+			r.Violate("", "removing facts that hold variable-looking strings hangs or panics: "+firstLine(pan), rep.J{"stored_facts": facts})
+			return
+		}
+		if clean {
+			if ret, pan := drv.Guard(callLimit, func() { cerr = t.canary(0, true) }); !ret || pan != "" || cerr != nil {
+				r.Violate("", fmt.Sprintf("after facts holding variable-looking strings were removed ordinary requests fail (returned=%v panic=%q error=%v)", ret, firstLine(pan), cerr), rep.J{"stored_facts": facts})
+			}
+		}
+	}
+}
+
 func hquery(g *gen.Gen, depth int) interface{} {
 	if depth <= 0 || g.Intn(3) == 0 {
 		switch g.Intn(4) {
@@ -537,6 +623,10 @@ func main() {
 		sheens(r)
 		return
 	default:
+		if e.Batch == 0 {
+			r.WritePartial() // a stack overflow in the next part kills the process; keep what there is
+			storedVarStrings(r, e, e.Stage)
+		}
 		campaign(r, e, e.Stage)
 	}
 	r.Write()
